@@ -9,8 +9,8 @@ Every specification has the form
 with window `T.drop k'`, `k ≤ k'`, and a result satisfying `R`).  Start tokens passed as arguments are
 written `T.getD i E`; `i ≤ k` is only required where the token is the start of a range error.
 -/
-namespace Pory.Parser
-open Pory
+namespace Pory.ErrLoc
+open Pory Pory.Parser
 
 section
 variable (T : List Tok) (E : Tok)
@@ -141,4 +141,4 @@ theorem sp_parseCommandStatement (env : Env) (sn : String) (n : Nat) (k : Nat) (
   tgo [sp_cmdArgsLoop T E]
 
 end
-end Pory.Parser
+end Pory.ErrLoc
